@@ -48,7 +48,7 @@ def run(ctx):
            ("StringTop_mcv_big.cfg", "counter and value events",
             {"Values": 3, "Counts": [1, 2, 5], "Xs": [1, 4], "Caps": [1, 2], "FinCaps": [-1, 1, 2], "MaxOps": 4}))
     for cfg, what, consts in () if selftest else (big if th else quick):
-        mc = ctx.tlc("StringTopMC", cfg, timeout=3000 if th else 900, coverage=th, constants=consts,
+        mc = ctx.tlc("StringTopMC", cfg, timeout=3000 if th else 900, coverage=(th and "mcv" in cfg), constants=consts,
                      name="StringTop (%s)" % what)
         ctx.require_model_ok(mc, "StringTop invariants (%s)" % what)
     ctx.ev.set("exhaustive", not selftest)
@@ -66,9 +66,9 @@ def run(ctx):
     inputs = inputs_of(beh.behaviours)
     rnd = random.Random(ctx.seed)
     rnd.shuffle(inputs)
-    take = inputs[: (3000 if th else 500)]
+    take = inputs[: (2000 if th else 500)]
     res, out, rc = ctx.go_test("internal/data_model", "TestVerifC07", inp=take,
-                               env={"VERIF_NRANDOM": 2000 if th else 250, "VERIF_NSEEDS": 4 if th else 2}, timeout=1500)
+                               env={"VERIF_NRANDOM": 1500 if th else 250, "VERIF_NSEEDS": 3 if th else 2}, timeout=1500)
     res = ctx.need_result(res, out, rc, "TestVerifC07")
     for k, v in REAL.items():
         if res.get("consts", {}).get(k) != v:
